@@ -7,6 +7,18 @@ TB = ("Coq 8.16.1 kernel; axioms as printed by Print Assumptions (allow-list in 
       "tied to /repo only by that correspondence (DESIGN.md section 8)")
 
 CHECKS = {
+ "C11": dict(
+   text="PARTIAL. Machine-checked for all knowledge bases, predicates, indices and counters: if every clause of kb' is the "
+        "corresponding clause of kb with its variables renamed by a per-clause injective map of names (different clauses may "
+        "share names, also with the query), every clause fetch from kb' returns the renamed fetched clause of kb with the SAME "
+        "fresh variable ids and the same counter (ids are assigned by first occurrence). The second half - from there on the "
+        "engine identifies variables by id and uses names only in Display, so answers, order and output are unchanged - is "
+        "stated (C11_full) and decided on every run by solving each generated program as written and under four renamings "
+        "(every clause uses $X,$Y,..; clauses reuse the query's names; names permuted; fresh names) on the implementation and "
+        "comparing all observations (answers up to renaming of unbound variables, texts and output with variable names masked).",
+   ref="7/C11",
+   technique="Coq proof that clause fetch commutes with injective renaming of names (Properties/C11.v) + renamed-program relation on the implementation + model-vs-implementation correspondence"),
+
  "C06": dict(
    text="PARTIAL. Machine-checked (all function-free terms whose complex terms have an atom functor, all substitutions, all "
         "fuel): SOUNDNESS - a successful unification keeps every earlier binding verbatim and returns a substitution set under "
